@@ -24,6 +24,7 @@ def is_app_of(t, f) -> bool:
     return z3.is_app(t) and t.decl().eq(f)
 
 
+_MULS = {}
 _COLLECT = {}     # formula id -> (formula, p2, bls, dms, ipows)
 _AX = {}          # key -> list[(name, axiom)]
 _KEEP = []
@@ -37,6 +38,7 @@ def _collect1(f):
         return hit[1:]
     seen = set()
     p2, bls, dms, ipows = {}, {}, {}, {}
+    muls = {}
     stack = [f]
     while stack:
         t = stack.pop()
@@ -59,7 +61,10 @@ def _collect1(f):
                     ipows[i] = t
             elif k in (z3.Z3_OP_IDIV, z3.Z3_OP_MOD):
                 dms[i] = t
+            elif k == z3.Z3_OP_MUL and t.num_args() == 2 and (is_app_of(t.arg(0), pow2) or is_app_of(t.arg(1), pow2)):
+                muls[i] = t
             stack.extend(t.children())
+    _MULS[fid] = muls
     _COLLECT[fid] = (f, p2, bls, dms, ipows)
     return p2, bls, dms, ipows
 
@@ -166,6 +171,39 @@ def _ax_dm(t, last, heavy):
     return out
 
 
+def _ax_dd(t1, t2, last):
+    """
+    two floor-divisions of the same numerator by powers of two (nested-division lemma):
+      a <= b  ->  x div 2^b == (x div 2^a) div 2^(b-a)   and   (x div 2^a) mod 2^(b-a) == (x mod 2^b) div 2^a
+    """
+    out = []
+    if last:
+        return out
+    x = t1.arg(0)
+    for (u, v) in ((t1, t2), (t2, t1)):
+        a, b = u.arg(1).arg(0), v.arg(1).arg(0)
+        qa = x / pow2(a)
+        qb = x / pow2(b)
+        out.append(('DD.nest', z3.Implies(z3.And(a >= 0, a <= b, x >= 0), qb == qa / pow2(b - a))))
+        out.append(('DD.mod', z3.Implies(z3.And(a >= 0, a <= b, x >= 0),
+                                         qa % pow2(b - a) == (x % pow2(b)) / pow2(a))))
+        out.append(('DD.mono', z3.Implies(z3.And(a >= 0, a <= b, x >= 0), qb <= qa)))
+    return out
+
+
+def _ax_mul(t):
+    """x * pow2(k): introduce its bit length (S2) and sign facts"""
+    out = []
+    for x, pk in ((t.arg(0), t.arg(1)), (t.arg(1), t.arg(0))):
+        if is_app_of(pk, pow2):
+            k = pk.arg(0)
+            out.append(('S2i', z3.Implies(z3.And(x > 0, k >= 0), bl(t) == bl(x) + k)))
+            out.append(('M.sign', z3.Implies(k >= 0, z3.And((t >= 0) == (x >= 0), (t > 0) == (x > 0), (t == 0) == (x == 0)))))
+            out.append(('M.ge', z3.Implies(z3.And(x >= 0, k >= 0), t >= x)))
+            break
+    return out
+
+
 def _ax_ipow(t):
     b_, e_ = t.arg(0), t.arg(1)
     return [('IP.zero', z3.Implies(e_ == 0, t == 1)),
@@ -229,8 +267,23 @@ def instantiate(formulas, rounds: int = 2, heavy: bool = True):
             if ('dm', i, False, heavy) in done:
                 continue
             emit(('dm', i, last, heavy), lambda t=t: _ax_dm(t, last, heavy))
+        # pairs of divisions (by pow2) of the same numerator
+        divs = [(i, t) for i, t in sorted(dms.items())
+                if t.decl().kind() == z3.Z3_OP_IDIV and is_app_of(t.arg(1), pow2)]
+        for x in range(len(divs)):
+            for y in range(x + 1, len(divs)):
+                (i, t1), (j, t2) = divs[x], divs[y]
+                if t1.arg(0).get_id() != t2.arg(0).get_id():
+                    continue
+                if ('dd', i, j, False) in done:
+                    continue
+                emit(('dd', i, j, last), lambda t1=t1, t2=t2: _ax_dd(t1, t2, last))
         for i, t in sorted(ipows.items()):
             emit(('ip', i), lambda t=t: _ax_ipow(t))
+        if not last:
+            for f_ in work + axioms:
+                for i, t in _MULS.get(f_.get_id(), {}).items():
+                    emit(('mul', i), lambda t=t: _ax_mul(t))
     return axioms, names
 
 
@@ -289,6 +342,12 @@ def selftest_schemas(limit: int = 40) -> dict:
                     bad['S6'] = (x, j, k)
                 if (x * P(j)) // P(k) != x * P(j - k):
                     bad['S6q'] = (x, j, k)
+        for a in range(0, 6):
+            for b in range(a, 8):
+                if x // P(b) != (x // P(a)) // P(b - a):
+                    bad['DD.nest'] = (x, a, b)
+                if (x // P(a)) % P(b - a) != (x % P(b)) // P(a):
+                    bad['DD.mod'] = (x, a, b)
         if BL(x + 1) > BL(x) and x + 1 != P(BL(x)):
             bad['S7'] = (x,)
         if BL(x + 1) > BL(x) + 1:
